@@ -242,7 +242,7 @@ func applyOp(c *Container, m []byte, op int, tag string) ([]byte, bool) {
 		}
 		if v > uint64(len(m)-vn) {
 			rt.Assert(err != nil, tag+"/nextblock-too-long-errors")
-			return m, false // prefix may have been consumed
+			return m, true // nothing consumed: the remaining data is not shifted
 		}
 		rt.Assert(err == nil, tag+"/nextblock-ok")
 		if err != nil {
